@@ -42,7 +42,7 @@ ALL_FIELDS = sorted(({f.name for c in M.TABLE for f in c.fields if c.name != "Bo
 SEQ_OK_FIELDS = sorted({f.name for c in M.TABLE for f in c.fields
                         if c.name != "BombNode" and (f.is_child or f.kind in ("int", "optint", "tint"))} - {"children"})
 REGEXES = ["", ".*", "\\d+", "a", "1", "True", "None", "Color", "\\(", "[ab]+", "x y", "-?\\d", "b", "a b", "ab", "x y$", "a b", "x y", "a  b",
-           'a|\\"', '\\"', '\\"a\\"', 'x\\\\\\"', 'x\\\\y', 'x\\\\d']  # escaped quotes at the end / start / both; an escaped backslash before one
+           'a|\\"', '\\"', '\\"a\\"', 'x\\\\\\"', 'x\\\\y', 'x\\\\d', '(?i)abc', '(?s)a.b', '(?x) a b']  # escaped quotes at the end / start / both; an escaped backslash before one
 
 
 def is_node(v: Any) -> bool:
